@@ -61,32 +61,36 @@ Section Codec.
   Lemma res_enq from (me peer : relay) a c st e : s_enq (res from me peer a c st e) = e.
   Proof. destruct from; reflexivity. Qed.
 
-  (* header / pushPromise / complete change the flow state by one enqueueFrame *)
+  (* header / pushPromise / complete change the flow state by one enqueueFrame and nothing else *)
   Lemma r_header_flow (r r' : relay) id fields es p em q :
-    r_header enc r id fields es p = Some (r', em, q) ->
+    r_header r id fields es p = Some (r', em, q) ->
     enqueue_emit q (r_flow r) = (r_flow r', em) /\ q_id q = id /\
-    r_cont r' = r_cont r /\ r_hbuf r' = r_hbuf r /\ r_dst r' = r_dst r.
+    r_cont r' = r_cont r /\ r_hbuf r' = r_hbuf r /\ r_dst r' = r_dst r /\ r_est r' = r_est r /\
+    q = QHdr id es p fields [].
   Proof.
-    unfold r_header. destruct (enc (r_est r) fields) as [bytes est'].
-    destruct (split_chunks _ _ bytes) as [ch|]; [|discriminate].
-    destruct (enqueue_emit _ (r_flow r)) as [fl em'] eqn:E. intro H. inversion H; subst. cbn. auto.
+    unfold r_header. destruct (enqueue_emit _ (r_flow r)) as [fl em'] eqn:E. intro H. inversion H; subst. cbn. auto 10.
   Qed.
   Lemma r_push_flow (r r' : relay) id pr fields em q :
-    r_push enc r id pr fields = Some (r', em, q) ->
+    r_push r id pr fields = Some (r', em, q) ->
     enqueue_emit q (r_flow r) = (r_flow r', em) /\ q_id q = id /\
-    r_cont r' = r_cont r /\ r_hbuf r' = r_hbuf r /\ r_dst r' = r_dst r.
+    r_cont r' = r_cont r /\ r_hbuf r' = r_hbuf r /\ r_dst r' = r_dst r /\ r_est r' = r_est r /\
+    q = QPush id pr fields [].
   Proof.
-    unfold r_push. destruct (enc (r_est r) fields) as [bytes est'].
-    destruct (split_chunks _ _ bytes) as [ch|]; [|discriminate].
-    destruct (enqueue_emit _ (r_flow r)) as [fl em'] eqn:E. intro H. inversion H; subst. cbn. auto.
+    unfold r_push. destruct (enqueue_emit _ (r_flow r)) as [fl em'] eqn:E. intro H. inversion H; subst. cbn. auto 10.
   Qed.
   Lemma complete_flow (r r' : relay) id fields em q :
-    complete enc r id fields = Some (r', em, q) ->
+    complete r id fields = Some (r', em, q) ->
     enqueue_emit q (r_flow r) = (r_flow r', em) /\ q_id q = id /\
-    r_cont r' = r_cont r /\ r_hbuf r' = r_hbuf r /\ r_dst r' = r_dst r.
+    r_cont r' = r_cont r /\ r_hbuf r' = r_hbuf r /\ r_dst r' = r_dst r /\ r_est r' = r_est r.
   Proof.
-    unfold complete. destruct (r_cont r) as [[p es|pr]|] eqn:E; [rewrite <- E; apply r_header_flow|rewrite <- E; apply r_push_flow|discriminate].
+    unfold complete. destruct (r_cont r) as [[p es|pr]|] eqn:E; [| |discriminate]; intro H.
+    - apply r_header_flow in H. rewrite <- E. tauto.
+    - apply r_push_flow in H. rewrite <- E. tauto.
   Qed.
+  Lemma r_header_some (r : relay) id fields es p : r_header r id fields es p <> None.
+  Proof. unfold r_header. destruct (enqueue_emit _ _). discriminate. Qed.
+  Lemma r_push_some (r : relay) id pr fields : r_push r id pr fields <> None.
+  Proof. unfold r_push. destruct (enqueue_emit _ _). discriminate. Qed.
 End Codec.
 
 Arguments s_to {dstate estate}.
